@@ -1,2 +1,2 @@
 SPECIFICATION TSpec
-INVARIANTS RContain RMedianIn ROrderInv RReorders RRaw RMidOK RTsBetween RErrNil
+INVARIANTS RReturns RRaceFree RContain RMedianIn ROrderInv RReorders RRaw RMidOK RTsBetween RErrNil
